@@ -211,11 +211,13 @@ class StmtMixin:
     # ------------------------------------------------------------------ control flow
     def st_If(self, node, st):
         for s1, c in self.ev(node.test, st):
-            b = self.truth(c)
-            sa = s1.fork(); sa.assume(b)
-            yield from self.explore(lambda: self.exec_block(node.body, sa), list(sa.pc))
-            sb = s1.fork(); sb.assume(z3.Not(b))
-            yield from self.explore(lambda: self.exec_block(node.orelse, sb), list(sb.pc))
+            b = z3.simplify(self.truth(c))
+            if not z3.is_false(b):
+                sa = s1.fork(); sa.assume(b)
+                yield from self.explore(lambda: self.exec_block(node.body, sa), list(sa.pc))
+            if not z3.is_true(b):
+                sb = s1.fork(); sb.assume(z3.Not(b))
+                yield from self.explore(lambda: self.exec_block(node.orelse, sb), list(sb.pc))
 
     def explore(self, gen_factory, pc):
         """Run a branch; a construct outside the subset on a branch whose path condition is unsatisfiable is ignored."""
